@@ -14,19 +14,19 @@ open VaxisModel.Model.Conc VaxisModel.Lemmas.Conc
 
 /-- Every step of the combined system is a step of the event queue LTS, or leaves the queue alone. -/
 theorem use_step_projects (qcap : Nat) (s s' : USys) (l : ULabel) (h : unext qcap s l = some s') :
-    s'.q = s.q ∨ ∃ ql, qnext qcap s.q ql = some s'.q := by
+    s'.q = s.q ∨ ∃ ql, ql.running = true ∧ qnext qcap s.q ql = some s'.q := by
   cases l with
   | post g b =>
     simp only [unext] at h
     split at h
     · simp at h
     · split at h
-      · rename_i q' hq; simp at h; subst h; exact Or.inr ⟨_, hq⟩
+      · rename_i q' hq; simp at h; subst h; exact Or.inr ⟨_, rfl, hq⟩
       · simp at h
   | consume =>
     simp only [unext] at h
     split at h
-    · rename_i q' hq; simp at h; subst h; exact Or.inr ⟨_, hq⟩
+    · rename_i q' hq; simp at h; subst h; exact Or.inr ⟨_, rfl, hq⟩
     · simp at h
   | deliver c k =>
     simp only [unext] at h
@@ -42,7 +42,7 @@ theorem use_step_projects (qcap : Nat) (s s' : USys) (l : ULabel) (h : unext qca
     split at h
     · simp at h
     · split at h
-      · rename_i q' hq; simp at h; subst h; exact Or.inr ⟨_, hq⟩
+      · rename_i q' hq; simp at h; subst h; exact Or.inr ⟨_, rfl, hq⟩
       · simp at h
   | request c => simp only [unext, Option.some.injEq] at h; subst h; exact Or.inl rfl
   | recv c =>
@@ -53,6 +53,7 @@ theorem use_step_projects (qcap : Nat) (s s' : USys) (l : ULabel) (h : unext qca
     simp only [unext] at h
     split at h <;> simp at h
     subst h; exact Or.inl rfl
+  | dropStale c => simp only [unext, Option.some.injEq] at h; subst h; exact Or.inl rfl
 
 /-- The queue component of every reachable state of the combined system is a reachable state of
 the queue LTS. -/
@@ -60,9 +61,36 @@ theorem use_projects (qcap : Nat) (s : USys) (h : UReachable qcap s) : QReachabl
   induction h with
   | init => exact .init
   | step l _ hn ih =>
-    rcases use_step_projects qcap _ _ l hn with h | ⟨ql, h⟩
+    rcases use_step_projects qcap _ _ l hn with h | ⟨ql, _, h⟩
     · rw [h]; exact ih
     · exact .step ql ih h
+
+/-- Posts and receives leave `chQuit` as it is. -/
+theorem qnext_keeps_quit (qcap : Nat) (q q' : QSys) (ql : QLabel) (hl : ql.running = true) (hq : qnext qcap q ql = some q') :
+    q'.quit = q.quit := by
+  cases ql with
+  | post g b =>
+    simp only [qnext] at hq
+    split at hq
+    · simp at hq; subst hq; rfl
+    · split at hq <;> simp at hq
+      subst hq; rfl
+  | consume =>
+    simp only [qnext] at hq
+    split at hq <;> simp at hq
+    subst hq; rfl
+  | quit => simp [QLabel.running] at hl
+  | giveUp g => simp [QLabel.running] at hl
+
+/-- The combined system describes the running session: `Close` has not completed (`chQuit` is open)
+in any of its reachable states. -/
+theorem use_not_quit (qcap : Nat) (s : USys) (h : UReachable qcap s) : s.q.quit = false := by
+  induction h with
+  | init => rfl
+  | step l _ hn ih =>
+    rcases use_step_projects qcap _ _ l hn with h | ⟨ql, hl, h⟩
+    · rw [h]; exact ih
+    · rw [qnext_keeps_quit qcap _ _ ql hl h]; exact ih
 
 /-- **Per-poster order with all actors present.** Events posted by one goroutine (an application
 poster, or the input goroutine `g = 0`) are delivered in posting order, whatever the other posters,
@@ -79,7 +107,7 @@ theorem no_lost_event_all_actors (qcap : Nat) (s : USys) (h : UReachable qcap s)
     (∀ e ∈ s.q.posted, e.blocking = true → e ∈ s.q.delivered ++ s.q.queue) ∧
     (s.q.delivered ++ s.q.queue).Sublist s.q.posted :=
   let inv := qinv_reachable qcap s.q (use_projects qcap s h)
-  ⟨inv.blocking, inv.sub⟩
+  ⟨inv.blocking (use_not_quit qcap s h), inv.sub⟩
 
 /-- A non-blocking post (`PostEvent`, `SyncFunc`, `Resize`) is dropped only when the queue is full
 at that moment. -/
@@ -148,6 +176,11 @@ theorem handoff_within_capacity (qcap : Nat) (s : USys) (h : UReachable qcap s) 
       · exact ih
     · split at hn <;> simp at hn
       subst hn; exact ih
+    · simp at hn; subst hn
+      simp only [upd]
+      split
+      · rename_i heq; subst heq; omega
+      · exact ih
 
 /-- **No deadlock while the application receives.** Whatever a reachable state looks like, a
 blocking post (of an application goroutine or of the input goroutine) is enabled, or the queue is
